@@ -414,11 +414,7 @@ class QGen:
         t, kind = self.num(scope, max(fuel - 1, 0))
         if k == "abs":
             self.labels.add("math")
-            if kind == "int":
-                # recorded finding: abs(int) is typed double but computes std::abs(int) -> a later '/' truncates
-                self.excluded["abs-of-int"] = self.excluded.get("abs-of-int", 0) + 1
-                return (f"(fabs({t}) + 1)", "double")
-            return (f"(abs({t}) + 1)", "double")
+            return (f"(abs({t}) + 1)", kind if kind == "int" else "double")
         return (f"({t} * {t} + 1)", kind)
 
     def num(self, scope, fuel) -> Tuple[str, str]:
@@ -596,8 +592,7 @@ class QGen:
         a, ka = self.num(scope, fuel - 1)
         self.labels.add("math")
         if name == "abs" and ka == "int":
-            self.excluded["abs-of-int"] = self.excluded.get("abs-of-int", 0) + 1
-            name = "fabs"
+            return (f"abs({a})", "int")  # abs of an integer is an integer
         if name == "exp2small":
             return (f"exp2({a} / 64.0)", "double")
         if name == "sqrtabs":
